@@ -44,6 +44,8 @@ FILTERS = {
     'finalize':      lambda: ef.BatchSafe(Finalize()),
 }
 
+NOT_BATCH_AWARE = {'repr_onehot','repr_tuple','repr_string','repr_ctx_only','repr_act_only','flatten','sparse_a','sparse_ca','dense_lookup','dense_hash','noise_a'}
+
 def make_rewards(sym, kind, actions, vals, i):
     if kind == 'list': return list(vals)
     if kind == 'binary':
@@ -61,7 +63,7 @@ def call(rw, actions, k):
 def params(tier):
     chains = [(f,) for f in FILTERS]
     if tier == 'quick':
-        two = [('repr_onehot','finalize'),('flatten','repr_onehot'),('sparse_a','dense_lookup'),('noise_a','finalize'),('batch','finalize'),('repr_string','sparse_a'),('finalize','batch'),('sparse_a','noise_a')]
+        two = [('repr_onehot','finalize'),('flatten','repr_onehot'),('sparse_a','dense_lookup'),('noise_a','finalize'),('batch','finalize'),('repr_string','sparse_a'),('finalize','batch'),('sparse_a','noise_a'),('sparse_a','repr_onehot'),('sparse_ca','finalize'),('batch','sparse_a')]
     else:
         two = [(a,b) for a in FILTERS for b in FILTERS if a != b]
     return [dict(chain=list(c), ak=k) for c in chains+two for k in ACTION_KINDS]
@@ -70,6 +72,9 @@ def _classify(v):
     info = v.get('info',{})
     w = v['what']
     kind = w.split(':')[0]
+    ch = (info.get('chain') or '').split('>')
+    if len(ch) == 2 and ch[0] == 'batch' and ch[1] in NOT_BATCH_AWARE:
+        return "Batch followed by a representation filter that is not batch-aware (Repr/Flatten/Sparsify/Densify/Noise): the batch is treated as one interaction"
     return f"{info.get('chain')}|{info.get('ak')}|{info.get('rk')}|{kind}"[:140]
 
 def unbatch(inter):
@@ -81,7 +86,7 @@ def unbatch(inter):
         else: out.append(d)
     return out
 
-@obligation('C10','rewards_follow_actions', bounds={'quick':"2 interactions (equal action sets, or the first one reversed with one action fewer) x 3 actions of 7 kinds; rewards as list / BinaryReward(value k/4) / DiscreteReward / callable / L1Reward (numeric actions); optional logged action+reward+probability; every single filter of 13 configurations and 8 two-filter chains",
+@obligation('C10','rewards_follow_actions', bounds={'quick':"2 interactions (equal action sets, or the first one reversed with one action fewer) x 3 actions of 7 kinds; rewards as list / BinaryReward(value k/4) / DiscreteReward / callable / L1Reward (numeric actions); optional logged action+reward+probability; every single filter of 13 configurations and 11 two-filter chains",
                                                    'thorough':"all ordered pairs of the 13 filter configurations"},
             functions=FUNCS, params=params, classify=_classify, budget={'quick':80,'thorough':1500})
 def rewards_follow_actions(sym, chain, ak):
